@@ -5,7 +5,7 @@
    No Extract Constant / Extract Inductive of our own. *)
 Require Extraction.
 Require Import ExtrOcamlBasic.
-From Otter Require Import Base Sketch Seq Spec Policy Wheel Maint Ring Mpsc HashMap Load Drain DrainMacro Striped.
+From Otter Require Import Base Sketch Seq Spec Policy Wheel Maint Ring Mpsc HashMap Load Drain DrainMacro Striped HashMapConc.
 (* run with cwd = /verif/ocaml: the extracted files land in the current directory *)
 Extraction "model.ml"
   Base.wrapu Base.wraps Base.satadd Base.abs64
@@ -26,4 +26,6 @@ Extraction "model.ml"
   Load.lstate0 Load.lstep Load.lmap Load.ltable Load.alookup Load.in_flight
   Drain.dstep Drain.ds_of Drain.lock_of Drain.wb_of Drain.ths_of Drain.all_done Drain.terminal Drain.drained
   DrainMacro.macro_step DrainMacro.add_thread DrainMacro.enabled DrainMacro.dstate0 DrainMacro.pc_at
-  Striped.sstep Striped.sadd Striped.sstate0 Striped.tables Striped.cur Striped.busy Striped.rings Striped.sths Striped.spc_ Striped.idx Striped.elem Striped.attempt Striped.snap.
+  Striped.sstep Striped.sadd Striped.sstate0 Striped.tables Striped.cur Striped.busy Striped.rings Striped.sths Striped.spc_ Striped.idx Striped.elem Striped.attempt Striped.snap
+  HashMapConc.hstep HashMapConc.hinit HashMapConc.len_of HashMapConc.bidx_of HashMapConc.lens HashMapConc.stores HashMapConc.lk HashMapConc.hcur HashMapConc.resizing HashMapConc.spec HashMapConc.hths
+  HashMapConc.hpc_ HashMapConc.hkey HashMapConc.hsnap HashMapConc.hbi HashMapConc.hcop HashMapConc.hres HashMapConc.happ HashMapConc.hretry.
